@@ -523,6 +523,36 @@ theorem cancel_all_bal (cid : Nat) (wk : List Nat) (live : List Live) (s : State
   have := cancel_bal cid wk live s _ h (fun i hi => List.mem_append_right _ hi) (List.nodup_append.mp hn).2.1
   rwa [filter_append_right hn] at this
 
+theorem loadStorAt_bal (cid : Nat) (m : Mod) (s : State) (live : List Live) (G : List Inst)
+    (h : SB s (G ++ nq live)) :
+    SB (loadStorAt ⟨s.nseq, cid, 102, 0⟩ m (alloc s) live).1
+      (G ++ nq (loadStorAt ⟨s.nseq, cid, 102, 0⟩ m (alloc s) live).2.1) := by
+  unfold loadStorAt
+  split
+  · exact Bal.prov_clean h _ rfl
+  · split
+    · exact Bal.prov_valid_clean h _ rfl
+    · simp only [nq_append_probe]
+      exact (Bal.prov_valid h _ rfl).perm (perm_snoc _ _ _)
+
+theorem setStorage_bal (cid : Nat) (m : Mod) (s : State) (live : List Live) (G : List Inst)
+    (h : SB s (G ++ nq live)) :
+    SB (setStorage cid m s live).1 (G ++ nq (setStorage cid m s live).2.1) := by
+  unfold setStorage
+  split
+  · exact h
+  · split
+    · exact h
+    · have h1 := loadStorAt_bal cid m s live G h
+      generalize loadStorAt ⟨s.nseq, cid, 102, 0⟩ m (alloc s) live = r at h1
+      obtain ⟨s', live', o⟩ := r
+      cases o with
+      | none => exact h1
+      | some r => exact h1
+
+theorem restoreStorage_sb {s : State} {L : List Inst} (h : SB s L) : SB (restoreStorage s) L := by
+  unfold restoreStorage; split <;> exact h
+
 theorem provisionContext_bal (cid : Nat) (c : Cfg) (pp : List Nat) (s : State) (G : List Inst)
     (h : SB s G) :
     (∀ r, (provisionContext cid c pp s).2.2 = some r → SB (provisionContext cid c pp s).1 G) ∧
@@ -535,18 +565,27 @@ theorem provisionContext_bal (cid : Nat) (c : Cfg) (pp : List Nat) (s : State) (
   cases o1 with
   | some r =>
     refine ⟨fun _ _ => ?_, fun hh => by simp at hh⟩
-    exact cancel_all_bal cid wk live1 s1 G h1
+    exact restoreStorage_sb (cancel_all_bal cid wk live1 s1 G h1)
   | none =>
     dsimp only
-    have h2 := loadApps_bal cid G (order pp c.apps) s1 live1 h1
-    generalize loadApps cid (order pp c.apps) s1 live1 = r2 at h2
-    obtain ⟨s2, live2, o2⟩ := r2
-    cases o2 with
+    have h1' := setStorage_bal cid c.stor s1 live1 G h1
+    generalize setStorage cid c.stor s1 live1 = r1' at h1'
+    obtain ⟨s1', live1', o1'⟩ := r1'
+    cases o1' with
     | some r =>
       refine ⟨fun _ _ => ?_, fun hh => by simp at hh⟩
-      exact cancel_all_bal cid wk live2 s2 G h2
+      exact restoreStorage_sb (cancel_all_bal cid wk live1' s1' G h1')
     | none =>
-      refine ⟨fun r hh => by simp at hh, fun _ => ⟨_, rfl, rfl, rfl, rfl, h2⟩⟩
+      dsimp only
+      have h2 := loadApps_bal cid G (order pp c.apps) s1' live1' h1'
+      generalize loadApps cid (order pp c.apps) s1' live1' = r2 at h2
+      obtain ⟨s2, live2, o2⟩ := r2
+      cases o2 with
+      | some r =>
+        refine ⟨fun _ _ => ?_, fun hh => by simp at hh⟩
+        exact restoreStorage_sb (cancel_all_bal cid wk live2 s2 G h2)
+      | none =>
+        refine ⟨fun r hh => by simp at hh, fun _ => ⟨_, rfl, rfl, rfl, rfl, h2⟩⟩
 
 theorem finishSettingUp_bal (ctx : Ctx) (post : Bool) (s : State) (G : List Inst)
     (h : SB s (G ++ nq ctx.live)) :
